@@ -214,6 +214,10 @@ void mp::internal::TextReader<Locale>::ReadHeader(NLHeader &header) {
       ReadOptionalUInt(header.num_eqns)) {
       ReadOptionalUInt(header.num_logical_cons);
   }
+  // Constraint suffixes index algebraic and logical constraints together.
+  if (header.num_logical_cons >
+      std::numeric_limits<int>::max() - header.num_algebraic_cons)
+    ReportError("integer overflow");
   ReadTillEndOfLine();
 
   // Read the nonlinear and complementarity information.
